@@ -121,6 +121,20 @@ Proof.
     rewrite Hy. repeat split. exact Hs.
 Qed.
 
+Theorem format_parse_terms :
+  (float_roundtrip_law <->
+   forall x, x < 2 ^ 64 -> f64_is_finite x = true -> f64_from_str dec_parse (dec_fmt x) = Some x) /\
+  (forall e, cdata_wf (DEnum e) <-> e < nt_mtab ET) /\
+  (forall s, cdata_wf (DString s)) /\
+  (forall n, cdata_wf (DUInt n) <-> n < 2 ^ 64) /\
+  (forall b, cdata_wf (DFloat b) <-> b < 2 ^ 64) /\
+  (forall a b, cdata_same (DFloat a) (DFloat b) = true <-> (a = b \/ (f64_is_nan a = true /\ f64_is_nan b = true))).
+Proof.
+  repeat split; try (intros H; exact H); try exact I.
+  - cbn [cdata_same]. unfold f64_same. rewrite orb_true_iff, andb_true_iff, N.eqb_eq. tauto.
+  - cbn [cdata_same]. unfold f64_same. rewrite orb_true_iff, andb_true_iff, N.eqb_eq. tauto.
+Qed.
+
 (* serialize_internal writes the same text as Display for everything but strings (which it escapes) *)
 Theorem serialize_is_display d :
   (forall s, d <> DString s) -> serialize_internal dec_fmt ET d = display dec_fmt ET d.
@@ -345,3 +359,26 @@ Qed.
 Print Assumptions format_parse.
 Print Assumptions parse_float_prefixed_all.
 Print Assumptions parse_float_prefixed_refuted.
+
+(* ------------------------------------------------------------------ *)
+(** * Non-vacuity of the hypotheses used in Properties/C20.v *)
+
+(* the float round-trip law is satisfiable: an (artificial) pair of conversions that obeys it *)
+Definition toy_fmt (x : N) : list N := 98 :: print_u64 x.
+Definition toy_parse (t : list N) : option N := match t with 98 :: r => parse_u64 r | _ => None end.
+
+Example float_roundtrip_law_satisfiable : float_roundtrip_law toy_parse toy_fmt.
+Proof.
+  intros x Hx _. unfold f64_from_str, toy_fmt.
+  replace (parse_inf_nan (98 :: print_u64 x)) with (@None N).
+  - cbn [toy_parse]. apply print_parse_u64, Hx.
+  - unfold parse_inf_nan. cbn [N.eqb Pos.eqb orb]. unfold inf_nan_word. cbn [map].
+    unfold to_lower. cbn [N.leb N.compare Pos.compare Pos.compare_cont andb]. cbn [bytes_eqb N.eqb Pos.eqb andb].
+    reflexivity.
+Qed.
+
+Example hypotheses_satisfiable :
+  int_value (BS "0x1F") = Some 31%Z /\ int_value (BS "-128") = Some (-128)%Z /\
+  prefixed_value (BS "0777") = Some 511 /\ prefixed_value (BS "0b1") = Some 1 /\
+  prefixed_value (BS "0x10000000000000000") = Some (2 ^ 64).
+Proof. vm_compute. repeat split. Qed.
